@@ -10,11 +10,17 @@ pub struct BeanFactory<'b>(DashMap<&'b str, usize>);
 impl BeanFactory<'_> {
     fn get_instance<'i>() -> &'i BeanFactory<'i> {
         static INSTANCE: AtomicUsize = AtomicUsize::new(0);
-        let mut ret = INSTANCE.load(Ordering::Relaxed);
+        let mut ret = INSTANCE.load(Ordering::Acquire);
         if ret == 0 {
-            let ptr: &'i mut BeanFactory = Box::leak(Box::default());
-            ret = std::ptr::from_mut(ptr) as usize;
-            INSTANCE.store(ret, Ordering::Relaxed);
+            // concurrent first users must agree on one factory
+            let ptr = Box::into_raw(Box::<BeanFactory>::default());
+            match INSTANCE.compare_exchange(0, ptr as usize, Ordering::AcqRel, Ordering::Acquire) {
+                Ok(_) => ret = ptr as usize,
+                Err(existing) => {
+                    drop(unsafe { Box::from_raw(ptr) });
+                    ret = existing;
+                }
+            }
         }
         unsafe { &*(ret as *mut BeanFactory) }
     }
@@ -23,14 +29,14 @@ impl BeanFactory<'_> {
     pub fn init_bean<B>(bean_name: &str, bean: B) {
         let factory = Self::get_instance();
         if factory.0.get(bean_name).is_none() {
-            let bean: &B = Box::leak(Box::new(bean));
-            assert!(factory
+            // atomically: a concurrent initializer of the same name must not be overwritten
+            _ = factory
                 .0
-                .insert(
-                    Box::leak(Box::from(bean_name)),
-                    std::ptr::from_ref(bean) as usize,
-                )
-                .is_none());
+                .entry(Box::leak(Box::from(bean_name)))
+                .or_insert_with(|| {
+                    let bean: &B = Box::leak(Box::new(bean));
+                    std::ptr::from_ref(bean) as usize
+                });
         }
     }
 
@@ -69,17 +75,18 @@ impl BeanFactory<'_> {
     #[must_use]
     pub fn get_or_default<B: Default>(bean_name: &str) -> &B {
         let factory = Self::get_instance();
-        factory.0.get(bean_name).map_or_else(
-            || {
+        if let Some(ptr) = factory.0.get(bean_name) {
+            return unsafe { &*(*ptr as *mut c_void).cast::<B>() };
+        }
+        // atomic get-or-create: all concurrent first users receive the same instance
+        let ptr = *factory
+            .0
+            .entry(Box::leak(Box::from(bean_name)))
+            .or_insert_with(|| {
                 let bean: &B = Box::leak(Box::default());
-                _ = factory.0.insert(
-                    Box::leak(Box::from(bean_name)),
-                    std::ptr::from_ref(bean) as usize,
-                );
-                bean
-            },
-            |ptr| unsafe { &*(*ptr as *mut c_void).cast::<B>() },
-        )
+                std::ptr::from_ref(bean) as usize
+            });
+        unsafe { &*(ptr as *mut c_void).cast::<B>() }
     }
 
     /// Get the bean by name, create bean if not exists.
@@ -90,16 +97,17 @@ impl BeanFactory<'_> {
     #[allow(clippy::mut_from_ref)]
     pub unsafe fn get_mut_or_default<B: Default>(bean_name: &str) -> &mut B {
         let factory = Self::get_instance();
-        factory.0.get_mut(bean_name).map_or_else(
-            || {
-                let bean: &mut B = Box::leak(Box::default());
-                _ = factory.0.insert(
-                    Box::leak(Box::from(bean_name)),
-                    std::ptr::from_ref(bean) as usize,
-                );
-                bean
-            },
-            |ptr| &mut *(*ptr as *mut c_void).cast::<B>(),
-        )
+        if let Some(ptr) = factory.0.get(bean_name) {
+            return &mut *(*ptr as *mut c_void).cast::<B>();
+        }
+        // atomic get-or-create: all concurrent first users receive the same instance
+        let ptr = *factory
+            .0
+            .entry(Box::leak(Box::from(bean_name)))
+            .or_insert_with(|| {
+                let bean: &B = Box::leak(Box::default());
+                std::ptr::from_ref(bean) as usize
+            });
+        &mut *(ptr as *mut c_void).cast::<B>()
     }
 }
